@@ -503,7 +503,9 @@ static int print_expr (hawk_t* hawk, hawk_nde_t* nde)
 						PUT_SRCSTR (hawk, HAWK_T("\\a"));
 						break;
 					case HAWK_T('\0'):
-						PUT_SRCSTR (hawk, HAWK_T("\\0"));
+						/* all three octal digits. a shorter escape would take
+						 * in a digit that follows. "\0001" is not "\01" */
+						PUT_SRCSTR (hawk, HAWK_T("\\000"));
 						break;
 					case HAWK_T('\"'):
 						PUT_SRCSTR (hawk, HAWK_T("\\\""));
@@ -555,7 +557,7 @@ static int print_expr (hawk_t* hawk, hawk_nde_t* nde)
 						PUT_SRCSTR (hawk, HAWK_T("\\a"));
 						break;
 					case HAWK_BT('\0'):
-						PUT_SRCSTR (hawk, HAWK_T("\\0"));
+						PUT_SRCSTR (hawk, HAWK_T("\\000"));
 						break;
 					case HAWK_BT('\"'):
 						PUT_SRCSTR (hawk, HAWK_T("\\\""));
